@@ -69,8 +69,15 @@ def build_inner(sc):
             kw.update(estimate_max_rate=True, max_rate_estimator=est)
         if p.get("uninterrupted", False):
             kw["uninterrupted_charging"] = True
+        positional = sub(sc.get("seed", 0), "algo_call_form").random() < 0.25
         if k == "greedy":
+            if positional:
+                # arguments by position, in the released order (sort_fn, estimate_max_rate, max_rate_estimator, uninterrupted_charging)
+                return sut.SortedSchedulingAlgo(sut.SORTS[p["sort"]], est is not None, est, bool(p.get("uninterrupted", False)))
             return sut.SortedSchedulingAlgo(sut.SORTS[p["sort"]], **kw)
+        if positional:
+            # released order: (sort_fn, estimate_max_rate, max_rate_estimator, uninterrupted_charging, continuous_inc)
+            return sut.RoundRobin(sut.SORTS[p["sort"]], est is not None, est, bool(p.get("uninterrupted", False)), p.get("continuous_inc", 1))
         if p.get("continuous_inc", 1) != 0.1:         # (0.1 is the library's documented default: left implicit)
             kw["continuous_inc"] = p.get("continuous_inc", 1)
         return sut.RoundRobin(sut.SORTS[p["sort"]], **kw)
